@@ -15,7 +15,7 @@ TRUSTED = ['the oracle of this check is the implementation itself on a fresh pro
            'after a pickle round trip nodes are recognised by their string']
 PARTIAL = ['another process with another hash seed: exercised under C18 machinery (subprocess runs), not here',
            'the hypothesis that the implementation\'s correction search is a consistent choice function is not proved']
-batches = _ops.make_batches('C05', 150, 2500)
+batches = _ops.make_batches('C05', 600, 6000)
 run_case = _ops.make_run_case(CLAUSES)
 compare = _ops.compare
 shrink_candidates = _ops.shrink_candidates
